@@ -285,7 +285,7 @@ Proof.
   - apply (BS_change rules env F rank (fun _ => false) x s s'); auto; try discriminate.
     + intros rq [H|[(k & H)|(t0 & z & Hz & H)]]; [left; congruence|right; left; exists k; now rewrite <- HR|right; right; exists t0, z; now rewrite <- Htk].
     + intros k _. now rewrite HR.
-    + intros k [(rq & H1 & H2)|(rq & H1 & H2)]; [left; exists rq; now rewrite Hts|right; exists rq; now rewrite Hi].
+    + intros k _ [(rq & H1 & H2)|(rq & H1 & H2)]; [left; exists rq; now rewrite Hts|right; exists rq; now rewrite Hi].
 Qed.
 
 Lemma Inv_sreq_scanning c s : Inv rules c s -> sreq_scanning s.
